@@ -661,18 +661,18 @@ theorem decodeSeq_encode (vs : Values) (d : Nat) (more : Bytes) (hw : vs.wf)
 end
 
 
-theorem control_leaf' (t : Tag) (p : Prim) (more : Bytes) :
+theorem control_leafE (t : Tag) (p : Prim) (more : Bytes) :
     control (encode (.leaf t p) ++ more) = .ok ⟨t.type, p.vt⟩ := by
   rw [encode_leaf_append, control_header]
 
-theorem value_leaf' (t : Tag) (p : Prim) (more : Bytes) (h : p.wf) :
+theorem value_leafE (t : Tag) (p : Prim) (more : Bytes) (h : p.wf) :
     value (encode (.leaf t p) ++ more) ⟨t.type, p.vt⟩ = .ok p.data := by
   rw [encode_leaf_append]; exact value_leaf t p more h
 
-theorem fixedVal_leaf' (t : Tag) (p : Prim) (more : Bytes) (h : p.wf) (n : Nat) (hn : p.data.length = n) :
+theorem fixedVal_leafE (t : Tag) (p : Prim) (more : Bytes) (h : p.wf) (n : Nat) (hn : p.data.length = n) :
     fixedVal (encode (.leaf t p) ++ more) ⟨t.type, p.vt⟩ n = .ok (leVal p.data) := by
   unfold fixedVal
-  rw [value_leaf' t p more h]
+  rw [value_leafE t p more h]
   simp only [Res.ok_bind, hn, if_true, Res.pure_eq]
 
 /-- an unsigned integer written with any width is read back by `u64()` (through the chain
@@ -681,10 +681,10 @@ theorem u64_uint (t : Tag) (w : Width) (n : Nat) (more : Bytes) (h : (Prim.uint 
     u64 (encode (.leaf t (.uint w n)) ++ more) = .ok n := by
   have hv : leVal (Prim.uint w n).data = n := by
     simp only [Prim.data]; exact leVal_leBytes_of_lt (by rw [pow256]; exact h)
-  have hf := fixedVal_leaf' t (.uint w n) more h w.bytes (by simp [Prim.data])
+  have hf := fixedVal_leafE t (.uint w n) more h w.bytes (by simp [Prim.data])
   rw [hv] at hf
   cases w <;>
-    simp only [u64, u32, u16, u8, control_leaf', Res.ok_bind, Prim.vt, Width.bytes, reduceCtorEq,
+    simp only [u64, u32, u16, u8, control_leafE, Res.ok_bind, Prim.vt, Width.bytes, reduceCtorEq,
       ValueType.uint.injEq, if_false, if_true] at hf ⊢ <;> exact hf
 
 theorem i64_sint (t : Tag) (w : Width) (i : Int) (more : Bytes) (h : (Prim.sint w i).wf) :
@@ -692,32 +692,32 @@ theorem i64_sint (t : Tag) (w : Width) (i : Int) (more : Bytes) (h : (Prim.sint 
   obtain ⟨h1, h2⟩ := signed_roundtrip w i h
   have hv : leVal (Prim.sint w i).data = ofSigned w.bytes i := by
     simp only [Prim.data]; exact leVal_leBytes_of_lt h1
-  have hf := fixedVal_leaf' t (.sint w i) more h w.bytes (by simp [Prim.data])
+  have hf := fixedVal_leafE t (.sint w i) more h w.bytes (by simp [Prim.data])
   rw [hv] at hf
   cases w <;>
-    simp only [i64, i32, i16, i8, control_leaf', Res.ok_bind, Prim.vt, Width.bytes, reduceCtorEq,
+    simp only [i64, i32, i16, i8, control_leafE, Res.ok_bind, Prim.vt, Width.bytes, reduceCtorEq,
       ValueType.sint.injEq, if_false, if_true] at hf h2 ⊢ <;>
     simp only [hf, Res.ok_bind, Res.pure_eq, h2]
 
 theorem str_roundtrip (t : Tag) (w : Width) (b : Bytes) (more : Bytes) (h : (Prim.str w b).wf) :
     strOf (encode (.leaf t (.str w b)) ++ more) = .ok b ∧ octetsOf (encode (.leaf t (.str w b)) ++ more) = .ok b := by
   have hw : w.bytes ≠ 0 := by cases w <;> simp [Width.bytes]
-  have hv := value_leaf' t (.str w b) more h
+  have hv := value_leafE t (.str w b) more h
   simp only [Prim.vt] at hv
-  simp only [strOf, octetsOf, control_leaf', Res.ok_bind, Prim.vt, ValueType.isStr, ValueType.varSizeLen, hw,
+  simp only [strOf, octetsOf, control_leafE, Res.ok_bind, Prim.vt, ValueType.isStr, ValueType.varSizeLen, hw,
     Bool.not_true, Bool.false_eq_true, if_false, hv, Prim.data, and_self]
 
 theorem utf8_roundtrip (t : Tag) (w : Width) (b : Bytes) (more : Bytes) (h : (Prim.utf8 w b).wf) :
     utf8Of (encode (.leaf t (.utf8 w b)) ++ more) = .ok b := by
-  have hv := value_leaf' t (.utf8 w b) more h
+  have hv := value_leafE t (.utf8 w b) more h
   simp only [Prim.vt] at hv
   simp only [Prim.wf] at h
-  simp only [utf8Of, control_leaf', Res.ok_bind, Prim.vt, ValueType.isUtf8, Bool.not_true, Bool.false_eq_true,
+  simp only [utf8Of, control_leafE, Res.ok_bind, Prim.vt, ValueType.isUtf8, Bool.not_true, Bool.false_eq_true,
     if_false, hv, Prim.data, h.2, if_true, Res.pure_eq]
 
 theorem bool_null_roundtrip (t : Tag) (b : Bool) (more : Bytes) :
     boolOf (encode (.leaf t (.bool b)) ++ more) = .ok b ∧ nullOf (encode (.leaf t .null) ++ more) = .ok () := by
-  cases b <;> simp only [boolOf, nullOf, control_leaf', Res.ok_bind, Prim.vt, Res.pure_eq, if_true, and_self]
+  cases b <;> simp only [boolOf, nullOf, control_leafE, Res.ok_bind, Prim.vt, Res.pure_eq, if_true, and_self]
 
 /-! ### the writer methods that choose the width themselves -/
 
@@ -775,7 +775,7 @@ theorem Control.raw_parse {b : UInt8} {c : Control} (h : Control.parse b = .ok c
   rw [this]; simp
 
 
-theorem leBytes_leVal' {s : Bytes} {k : Nat} (h : s.length = k) : leBytes k (leVal s) = s := by
+theorem leBytes_leVal_len {s : Bytes} {k : Nat} (h : s.length = k) : leBytes k (leVal s) = s := by
   subst h; exact leBytes_leVal s
 
 theorem split3 (s : Bytes) (a b : Nat) :
@@ -820,16 +820,16 @@ theorem tagOf_bytes {b : UInt8} {tl : Bytes} {c : Control} {t : Tag}
       subst this
       simp [Tag.bytes, leBytes]
   · simp only [arr, hl, if_true, Res.ok_bind, Res.pure_eq, Res.ok.injEq] at h2; subst h2
-    exact leBytes_leVal' hl
+    exact leBytes_leVal_len hl
   · simp only [arr, hl, if_true, Res.ok_bind, Res.pure_eq, Res.ok.injEq] at h2; subst h2
-    exact leBytes_leVal' hl
+    exact leBytes_leVal_len hl
   · simp only [arr, hl, if_true, Res.ok_bind, Res.pure_eq, Res.ok.injEq] at h2; subst h2
-    exact leBytes_leVal' hl
+    exact leBytes_leVal_len hl
   · simp only [arr, hl, if_true, Res.ok_bind, Res.pure_eq, Res.ok.injEq] at h2; subst h2
-    exact leBytes_leVal' hl
+    exact leBytes_leVal_len hl
   · rw [if_pos (by omega)] at h2; simp at h2; subst h2
     simp only [Tag.bytes]
-    rw [leBytes_leVal' (by simp; omega), leBytes_leVal' (by simp; omega), leBytes_leVal' (by simp; omega)]
+    rw [leBytes_leVal_len (by simp; omega), leBytes_leVal_len (by simp; omega), leBytes_leVal_len (by simp; omega)]
     have := split3 s 2 2
     have e : s.drop (2 + 2) = (s.drop 4).take 2 := by
       rw [List.take_of_length_le (by simp; omega)]
@@ -837,7 +837,7 @@ theorem tagOf_bytes {b : UInt8} {tl : Bytes} {c : Control} {t : Tag}
     rw [List.append_assoc]; exact this.symm
   · rw [if_pos (by omega)] at h2; simp at h2; subst h2
     simp only [Tag.bytes]
-    rw [leBytes_leVal' (by simp; omega), leBytes_leVal' (by simp; omega), leBytes_leVal' (by simp; omega)]
+    rw [leBytes_leVal_len (by simp; omega), leBytes_leVal_len (by simp; omega), leBytes_leVal_len (by simp; omega)]
     have := split3 s 2 2
     have e : s.drop (2 + 2) = (s.drop 4).take 4 := by
       rw [List.take_of_length_le (by simp; omega)]
@@ -934,7 +934,7 @@ theorem reencode_take (bs out : Bytes) (hne : bs ≠ []) (hu : bs.length + 1 < U
       have hlf : (leBytes 8 (s.take n).length).take c.vt.varSizeLen = (tl.drop c.tag.size).take c.vt.varSizeLen := by
         obtain ⟨m, hm⟩ : ∃ m, 8 = c.vt.varSizeLen + m := ⟨8 - c.vt.varSizeLen, by omega⟩
         rw [hplen, hm, leBytes_append_take, hnv]
-        exact leBytes_leVal' (by rw [List.length_take]; omega)
+        exact leBytes_leVal_len (by rw [List.length_take]; omega)
       rw [hlf]
       simp only [header, hraw, htb, List.cons_append, List.append_assoc]
     · have hv0 : c.vt.varSizeLen = 0 := by omega
